@@ -262,9 +262,9 @@ func (p *Path) advanceClock() {
 		p.clock = Bin(OpAdd, p.clock, BV(64, 1000))
 		return
 	}
-	nc := p.freshVar("clock", 64)
-	p.assume(Cmp(OpUle, p.clock, nc))
-	p.assume(Cmp(OpUle, nc, BV(64, 1<<62)))
+	nc := p.freshVar("clock", IntW)
+	p.assume(Cmp(OpSle, p.clock, nc))
+	p.assume(Cmp(OpSle, nc, IntC(1<<62)))
 	p.clock = nc
 }
 
